@@ -3,6 +3,7 @@ import CobaldVerif.Drive.C05
 import CobaldVerif.Drive.C06
 import CobaldVerif.Drive.C07
 import CobaldVerif.Drive.C08
+import CobaldVerif.Drive.C09
 import CobaldVerif.Drive.C14
 import CobaldVerif.Drive.C15
 import CobaldVerif.Drive.C16
@@ -20,6 +21,7 @@ def dispatch (prop : String) (j : Json) : Except String Json :=
   | "C06" => C06.handle j
   | "C07" => C07.handle j
   | "C08" => C08.handle j
+  | "C09" => C09.handle j
   | "C14" => C14.handle j
   | "C15" => C15.handle j
   | "C16" => C16.handle j
